@@ -260,10 +260,6 @@ fn url_host(url: &str) -> Option<&str> {
     Some(&rest[..end])
 }
 
-fn mutation() -> u32 {
-    std::env::var("C16_MUT").ok().and_then(|s| s.parse().ok()).unwrap_or(0)
-}
-
 fn make_page(url: &str) -> Option<Page> {
     let host = to_ascii(url_host(url)?)?;
     let domain = registrable(&host);
@@ -280,14 +276,9 @@ fn make_page(url: &str) -> Option<Page> {
     let mut entity_lookup = BTreeSet::new();
     let mut entity_base = None;
     if let Some(p) = &suffix {
-        if mutation() != 1 {
-            host_lookup.insert(p.clone());
-        }
+        host_lookup.insert(p.clone());
         if let Some(base) = host.strip_suffix(&format!(".{}", p)) {
             for s in label_suffixes(base) {
-                if mutation() == 2 && s != base {
-                    continue;
-                }
                 entity_lookup.insert(s.to_string());
             }
             entity_base = Some(base.to_string());
@@ -538,7 +529,7 @@ fn model(rules: &[&Rule], effs: &[Eff], generichide: bool) -> (Res, Skip) {
         blocks: vec![],
         generichide,
     };
-    let blanket = (m.minus_unhide[BLANKET] | m.minus_neg[BLANKET]) != 0 && mutation() != 5;
+    let blanket = (m.minus_unhide[BLANKET] | m.minus_neg[BLANKET]) != 0;
     let mut s1_used = false;
     for b in 0..NB {
         let body = &BODIES[b];
@@ -750,15 +741,33 @@ fn cause(field: &str, missing: bool, item: &str, rules: &[&Rule], effs: &[Eff], 
     let with_body: Vec<(usize, &&Rule)> = rules.iter().enumerate().filter(|(_, r)| r.body == b).collect();
     let ps = suffix_class(p);
     if missing {
-        for (i, r) in &with_body {
-            let e = &effs[*i];
-            if field == "exceptions" {
+        if field == "exceptions" {
+            for (i, r) in &with_body {
+                let e = &effs[*i];
                 if e.minus_unhide || e.minus_neg {
                     if let Some(l) = r.locs.iter().find(|l| (l.neg || r.unhide) && covers(l, p)) {
                         return format!("{}.{}.{}", if r.unhide { "unhide-rule" } else { "negated-location" }, cover_reason(l, p), ps);
                     }
                 }
-            } else if e.plus {
+            }
+            return "expected-without-rule".into();
+        }
+        // an exception or negated location elsewhere in the list that does not cover the host but
+        // comes close is the likeliest reason for a lost item
+        let lost_to = rules
+            .iter()
+            .filter(|r| r.body == b || (field == "script" && r.body == BLANKET))
+            .flat_map(|r| r.locs.iter().filter(move |l| (l.neg || r.unhide) && !covers(l, p)))
+            .map(|l| noncover_reason(l, p))
+            .min_by_key(|r| NONCOVER_RANK.iter().position(|x| x == r).unwrap_or(NONCOVER_RANK.len()));
+        if let Some(reason) = lost_to {
+            if !reason.contains("unrelated") {
+                return format!("lost-to-non-covering-exception.{}.{}", reason, ps);
+            }
+        }
+        for (i, r) in &with_body {
+            let e = &effs[*i];
+            if e.plus {
                 if let Some(l) = r.locs.iter().find(|l| !l.neg && covers(l, p)) {
                     return format!("covered.{}.{}", cover_reason(l, p), ps);
                 }
